@@ -1,5 +1,6 @@
 import JsonVerif.Lemmas.CanonThm
 import JsonVerif.Lemmas.Serde
+import JsonVerif.Lemmas.PermEqLaws
 /-!
 # Canonicalization does not see number spelling (C10)
 
@@ -38,5 +39,37 @@ theorem canon_blind (nc : List Char → List Char) (hnc : ∀ n, nc (nc n) = nc 
     (h : SameUpToOrderAndNumbers nc a b) : canon nc a = canon nc b := by
   rw [← canon_mapNumbers nc hnc a, ← canon_mapNumbers nc hnc b]
   exact canon_permEq nc h
+
+mutual
+/-- the canonical value is the value with its numbers respelled, up to the order of members -/
+theorem canon_permEq_mapNumbers (nc : List Char → List Char) :
+    ∀ v : JValue, PermEq (mapNumbers nc v) (canon nc v)
+  | .null => .null
+  | .bool b => .bool b
+  | .string s => .string s
+  | .number n => .number _
+  | .array xs => by simp only [mapNumbers, canon]; exact .array (canonL_permEq_mapNumbers nc xs)
+  | .object es => by
+    simp only [mapNumbers, canon]
+    exact .object (PermEqM.ofPW (canonM_pw_mapNumbers nc es) (List.mergeSort_perm _ _).symm)
+theorem canonL_permEq_mapNumbers (nc : List Char → List Char) :
+    ∀ xs : List JValue, PermEqL (mapNumbersL nc xs) (canonL nc xs)
+  | [] => .nil
+  | x :: xs => by
+    simp only [mapNumbersL, canonL]
+    exact .cons (canon_permEq_mapNumbers nc x) (canonL_permEq_mapNumbers nc xs)
+theorem canonM_pw_mapNumbers (nc : List Char → List Char) :
+    ∀ es : List (List Char × JValue), PW (mapNumbersM nc es) (canonM nc es)
+  | [] => .nil
+  | (k, x) :: es => by
+    simp only [mapNumbersM, canonM]
+    exact .cons (canon_permEq_mapNumbers nc x) (canonM_pw_mapNumbers nc es)
+end
+
+/-- **Uniqueness**: a value that is the respelled input up to member order, whose numbers are in
+    canonical spelling and whose members are sorted at every depth IS the canonical value. -/
+theorem canon_unique (nc : List Char → List Char) (hnc : ∀ n, nc (nc n) = nc n) (v w : JValue)
+    (hp : PermEq (mapNumbers nc v) w) (hs : AllSorted w) (hn : NumsFixed nc w) : w = canon nc v := by
+  rw [← canon_mapNumbers nc hnc v, canon_permEq nc hp, canon_fixed nc w hs hn]
 
 end JsonVerif
